@@ -15,7 +15,7 @@ NAMES = {1: "A", 2: "B"}
 CZ = {"order": {1: 1, 2: 2, 0: 0, -1: -1}, "grating": {1: 1.2e-3, 2: 1.0e-3, 0: 0.0, -1: -1.e-3},
       "focal": {1: 1.e9, 2: 0.8e9, 0: 0.0, -1: -1.e9}, "spacing": {1: 2.e4, 2: 1.5e4, 0: 0.0, -1: -2.e4},
       "angle": {1: 10.0, 2: 12.0, 0: 0.0, -1: -5.0},
-      "acc": {1: ((500.0, 4),), 2: ((400.0, 3), (600.0, 5)), 3: ((300.0, 6),), 4: ((600.0, 5), (400.0, 3)), 5: ((400.0, 64), (400.3, 8)), 0: ((-500.0, 4),), -1: ((500.0, 0),), -2: ((500.0, -3),)}}
+      "acc": {1: ((500.0, 4),), 2: ((400.0, 3), (600.0, 5)), 3: ((300.0, 6),), 4: ((600.0, 5), (400.0, 3)), 5: ((400.0, 64), (400.3, 8)), 6: ((400.3, 8), (400.0, 64)), 0: ((-500.0, 4),), -1: ((500.0, 0),), -2: ((500.0, -3),)}}
 BAD_W2P = {0: [[500.0, 499.0, 501.0]], -1: [[500.0]], -2: [[[1.0, 2.0], [3.0, 4.0]]]}
 
 
